@@ -2,6 +2,7 @@ import importlib
 
 _UNIT_MODULES = [
     "units.u_overlap.unit",
+    "units.u_bigint.unit",
 ]
 
 UNITS = {}
